@@ -247,6 +247,8 @@ func TestVerifC18Ctl(t *testing.T) {
 					t.Fatalf("cache registered no periodic job")
 				}
 				tr.Emit(verifsupport.Ev{"sc": sc.Sc, "ev": "Clean", "map": project()})
+			case "Use":
+				// the consumers are driven by TestVerifC18Use (verifdrivers/c18use)
 			default:
 				t.Fatalf("unknown step %q", st.Ev)
 			}
